@@ -117,6 +117,14 @@ class ArrayRun(scansim.Run):
             p = args[0]
             if not (isinstance(p, tuple) and p[0] == 'P' and p[1] == 'A'):
                 raise Unsupported('`%s` outside the element storage' % pe(e))
+            if pq == 'asl::asl_construct_copy' and len(e.get('a', [])) > 1:
+                # the source of the copy must be a constructed object other than the one being constructed
+                try:
+                    sl = self.lv(e['a'][1])
+                except Unsupported:
+                    sl = None
+                if sl is not None and sl[0] == 'buf' and sl[1][1] == 'A' and sl[1][2] == p[2]:
+                    raise Broken('copy-constructs element %d from itself (its own raw storage) (line %s)' % (p[2], e.get('l')))
             buf = self.bufs['A']
             cnt = 1
             if pq != 'asl::asl_construct_copy' and len(args) > 1:
